@@ -34,14 +34,21 @@ type relayFaults struct {
 	fullFor   time.Duration
 	latMin    time.Duration
 	latMax    time.Duration
-	injectPm  int // after a Send, the relay also delivers a forged message (C07)
-	capMsgs   int // mailbox capacity in messages: a Send blocks while the box holds that many (0 = unbounded)
-	delErrPm  int // DelCipherBox fails (at any time, not only before `until`); the box may or may not be gone
+	injectPm  int           // after a Send, the relay also delivers a forged message (C07)
+	asyncSend time.Duration // > 0: Send only queues the message locally and returns; it is on its way after this long, unless the stream's context is cancelled first (gRPC client streams)
+	capMsgs   int           // mailbox capacity in messages: a Send blocks while the box holds that many (0 = unbounded)
+	delErrPm  int           // DelCipherBox fails (at any time, not only before `until`); the box may or may not be gone
 }
 
 type relayMsg struct {
 	b  []byte
 	at time.Duration
+	// from / commitAt: with an asynchronous send side (see asyncSend) the
+	// message is still in the sender's gRPC layer until commitAt; if the
+	// stream's context is cancelled before, the stream is reset and the
+	// message never reaches the relay
+	from     *sendStream
+	commitAt time.Duration
 }
 
 type box struct {
@@ -172,7 +179,48 @@ func (r *relay) SendStream(ctx context.Context, _ ...grpc.CallOption) (hashmailr
 		r.rc.Fault("relay-sendstream-error")
 		return nil, status.Error(codes.Unavailable, "simulated relay failure")
 	}
-	return &sendStream{r: r, ctx: ctx}, nil
+	s := &sendStream{r: r, ctx: ctx}
+	if r.f.asyncSend > 0 {
+		go s.watchCancel()
+	}
+	return s, nil
+}
+
+// watchCancel resets the stream when its context ends: whatever the sender's
+// side had only queued is dropped.
+func (s *sendStream) watchCancel() {
+	<-s.ctx.Done()
+	r := s.r
+	r.mu.Lock()
+	defer r.mu.Unlock()
+	now := r.rc.Now()
+	for _, id := range r.boxIDs() {
+		b := r.boxes[id]
+		kept := b.q[:0]
+		for _, m := range b.q {
+			if m.from == s && m.commitAt > now {
+				r.rc.Fault("relay-queued-send-dropped-by-stream-reset")
+				r.note("stream reset drops a queued %d-byte message for %s", len(m.b), id[:8])
+				continue
+			}
+			kept = append(kept, m)
+		}
+		b.q = kept
+	}
+}
+
+// flush: everything this stream has queued is on its way (a half-close that
+// was answered by the relay).
+func (s *sendStream) flush() {
+	now := s.r.rc.Now()
+	for _, id := range s.r.boxIDs() {
+		b := s.r.boxes[id]
+		for i := range b.q {
+			if b.q[i].from == s && b.q[i].commitAt > now {
+				b.q[i].commitAt = now
+			}
+		}
+	}
 }
 
 func (s *sendStream) Context() context.Context { return s.ctx }
@@ -192,6 +240,12 @@ func (s *sendStream) CloseSend() error {
 }
 
 func (s *sendStream) CloseAndRecv() (*hashmailrpc.CipherBoxDesc, error) {
+	if s.ctx.Err() != nil {
+		return nil, status.Error(codes.Canceled, s.ctx.Err().Error())
+	}
+	s.r.mu.Lock()
+	s.flush()
+	s.r.mu.Unlock()
 	s.CloseSend()
 	return &hashmailrpc.CipherBoxDesc{}, nil
 }
@@ -291,10 +345,17 @@ func (s *sendStream) Send(m *hashmailrpc.CipherBox) error {
 	if n := len(b.q); n > 0 && b.q[n-1].at > at {
 		at = b.q[n-1].at // the relay keeps order
 	}
-	b.q = append(b.q, relayMsg{msg, at})
+	rm := relayMsg{b: msg, at: at}
+	if r.f.asyncSend > 0 {
+		rm.from, rm.commitAt = s, r.rc.Now()+r.f.asyncSend
+		if rm.at < rm.commitAt {
+			rm.at = rm.commitAt
+		}
+	}
+	b.q = append(b.q, rm)
 	if faulty && simrt.Pm(r.f.injectPm, "relay.inject") {
 		forged := r.forge(msg)
-		b.q = append(b.q, relayMsg{forged, at})
+		b.q = append(b.q, relayMsg{b: forged, at: at})
 		r.rc.Fault("relay-inject")
 		simrt.NoteSig("relay injects %s into %s", simrt.Hex(forged, 8), id[:8])
 	}
